@@ -81,7 +81,9 @@ CHECKS = {
     'C13': dict(engine=ENGINE_L2, technique='runtime monitoring: non-interference oracle (full status snapshot through '
                 'the status XML-RPCs before / after every injected message) and reference model of the handshake, on one '
                 'real booted instance whose peers are scripted and whose proxy steps are scheduled one message at a '
-                'time by a randomised driver',
+                'time by a randomised driver; plus an offline checker over the recorded history of the REAL proxy '
+                'threads (real SupervisorProxyServer / SupervisorProxyThread run / stop / join, recording XML-RPC '
+                'client that hangs): nothing leaves the queue of the proxy of an isolated peer once it has been stopped',
                 text='held on every injected message and every handshake outcome observed (isolated peers: all message '
                      'kinds; peers not yet admitted: process state / removal / disability events; stale and duplicated '
                      'handshake results; mismatching origin), silence and permanence on every isolation observed',
@@ -104,7 +106,9 @@ CHECKS = {
                 note='trusted base: the definition and evaluator of monitors/c15_application.py; CPython audit '
                      'events for compile/exec/import/open/os/subprocess/socket'),
     'C16': dict(engine=ENGINE_L3, technique='runtime monitoring: log / exception / thread-death monitors active in '
-                'cluster executions under the full fault matrix, plus tick-progress assertion',
+                'cluster executions under the full fault matrix and under run-time changes of the Supervisor '
+                'configuration (numprocs, enable / disable, groups removed / added), documented-fault oracle on the '
+                'answers of these requests, plus tick-progress assertion',
                 text='held on K executions: no traceback reached a last-resort guard, no non-RPCError left an '
                      'XML-RPC method, no proxy thread died, tick counters kept advancing', ref='8/C16', note=TRUST_L3),
     'C17': dict(engine=ENGINE_L3, technique='runtime monitoring: online oracle around every probed XML-RPC (gate table '
